@@ -58,6 +58,18 @@ def check_case(case, ex):
         _compare(out, [r.key() for r in recs], [(a, b, c) for a, b, c in tap], fpx, 'vs_tap', mrl)
     else:
         C.bump(stats['skipped'], 'lr_tap_dead')
+    # the record type the segments carry is the one the specification implies: each set type has its record type (RP66 V1
+    # appendix A), a record opening with a FRAME's name is frame data (0), one opening with a NO-FORMAT object's name is 1
+    dec = rp66.decode_file(st['file'])
+    for e in dec.errors:
+        if e.rule == 'eflr.record_type_vs_set':
+            out.append(C.V('C02.record_type_wrong', dict(fpx, kind='eflr', set=e.detail.get('set')), **e.detail))
+        elif e.rule in ('iflr.frame_ref_unresolved', 'iflr.noformat_ref_unresolved'):
+            ob = e.detail.get('frame') or e.detail.get('obj')
+            other = 'NO-FORMAT' if e.rule == 'iflr.frame_ref_unresolved' else 'FRAME'
+            if any(len(lf.find_object(other, ob)) == 1 for lf in dec.lfs):
+                out.append(C.V('C02.record_type_wrong', dict(fpx, kind='iflr', opens_with=other), obj=list(ob), rec=e.detail.get('rec')))
+                break
     cap = mrl - 8
     multi = [r for r in recs if r.nsegs > 1]
     nfl = C.n_flushes(st.get('io'))
